@@ -1,4 +1,5 @@
 import RtenVerif.Lemmas.PlanCache
+import RtenVerif.Lemmas.PlanCacheExec
 /-!
 # C26 — Invalid run requests are reported as errors
 
@@ -16,6 +17,12 @@ of earlier `run` calls (valid or not).
 * `c26_error_class`: which error (validation first, then `create_plan`'s argument checks in order).
 * `c26_partial_invalid_is_error` (T1, `partial_run`; a missing input is not an error there).
 * `c26_accepted_plan_ok`: a request that *is* accepted runs with a plan that is valid for it.
+* `c26_run_never_panics` / `c26_partial_never_panics` (outcome level): on graphs whose operator
+  inputs (and, for `partial_run`, outputs) are value or constant nodes, **every** request —
+  valid or not, cold or warm cache, succeeding or failing kernels — returns `Ok` or `Err`; none
+  of the four modelled panic sites of `run_plan` is reachable (refcount invariant,
+  `Lemmas/PlanCacheExec.lean`).  `c26_wfg_needed`: on an ill-formed graph (an operator whose
+  input is an operator id, which no loader builds) the "not a value or constant" site is reached.
 * `c26_orig_false_input` / `c26_orig_false_output`: with `CachedPlan::matches` as it was before
   the fix, T1 is false: a duplicated id that keeps the list length hits the cache and `run_plan`
   panics (`decide`d on the model, replayed on the real code by the harness).
@@ -290,6 +297,54 @@ theorem c26_accepted_plan_ok {m : Mdl} {c : Option CachedPlan} (hc : Reachable m
     ArgsOK m.g ins outs ∧ PlanOK m.g false (resolvedNew m.g ins false) outs plan :=
   getCachedPlan_ok (reachable_inv hc) h
 
+
+/-! ## Outcome level: every request returns `Ok` or `Err` -/
+
+/-- **C26, outcome level (`run`, `run_n`, `run_one`).** On a graph whose operator inputs are value
+or constant nodes, for every reachable plan-cache content, every request (valid or invalid) and
+every kernel behaviour, `run` returns `Ok` or an error: invalid requests are rejected before
+`run_plan` (`c26_invalid_is_error`), and an accepted request runs with a plan that is valid for
+it (`c26_accepted_plan_ok`), for which the refcount invariant (`runPlan_accepted`) shows that
+none of the panic sites "not a value or constant", "Invalid plan did not produce input value",
+"missing output value" and `NodeRefCount` indexing is reachable. -/
+theorem c26_run_never_panics {m : Mdl} (hwf : WFG m.g) {c : Option CachedPlan} (hc : Reachable m c)
+    (opsOk : Bool) (inputs : List (Nat × InVal)) (outs : List Nat) :
+    (run .fixed m opsOk c inputs outs).1 = .ok ∨ (run .fixed m opsOk c inputs outs).1.isErr = true := by
+  rw [run_fst]
+  by_cases hv : validateInputs m inputs = false
+  · rw [if_pos hv]; exact Or.inr rfl
+  · rw [if_neg hv]
+    cases hg : (getCachedPlan .fixed m.g false c (inputs.map (·.1)) outs).1 with
+    | error e => exact Or.inr rfl
+    | ok plan =>
+      obtain ⟨hargs, hok⟩ := c26_accepted_plan_ok hc hg
+      rcases runPlan_accepted hwf opsOk hargs hok with ⟨_, h⟩ | h
+      · right; show (runPlan m.g opsOk inputs plan outs).isErr = true; rw [h]; rfl
+      · left; exact h
+
+theorem c26_run_isPanic_false {m : Mdl} (hwf : WFG m.g) {c : Option CachedPlan} (hc : Reachable m c)
+    (opsOk : Bool) (inputs : List (Nat × InVal)) (outs : List Nat) :
+    (run .fixed m opsOk c inputs outs).1.isPanic = false := by
+  rcases c26_run_never_panics hwf hc opsOk inputs outs with h | h
+  · rw [h]; rfl
+  · exact isErr_not_panic h
+
+/-- **C26, outcome level (`partial_run`).** `prune_plan` keeps the plan valid and the returned
+leaf ids distinct, available and value/constant nodes, so `partial_run` never panics either
+(operator outputs must be value or constant nodes as well). -/
+theorem c26_partial_never_panics {m : Mdl} (hwf : WFG m.g) (hwo : WFGo m.g) (opsOk : Bool)
+    (inputs : List (Nat × InVal)) (outs : List Nat) :
+    (partialRun m opsOk inputs outs).isPanic = false :=
+  partialRun_no_panic hwf hwo opsOk inputs outs
+
+/-- The graph hypothesis is needed: operator 2 lists its own (operator) id as its output and
+operator 1 reads it (no loader builds such a graph); the planner accepts `[] → [0]` with the plan
+`[2, 1]` and `run_plan` reaches `panic!("node … is not a value or constant")`. -/
+theorem c26_wfg_needed :
+    (run .fixed { g := { nodes := [.value, .operator { inputs := [some 2], outputs := [some 0] },
+        .operator { inputs := [], outputs := [some 2] }] } }
+      true none [] [0]).1 = .panic .notValueOrConstant := by decide
+
 /-! ## Witnesses -/
 
 /-- `y = op3(a, b)`, `z = op5(y)`; ids: a=0 b=1 y=2 op=3 z=4 op=5. -/
@@ -302,6 +357,29 @@ def wGraph : Graph :=
 def wMdl : Mdl := { g := wGraph, vmeta := [{ dtype := some 1, shape := some [none, some 4] }] }
 
 def wv : InVal := { dtype := 1, shape := [2, 4] }
+
+/-- Non-vacuity: the witness graph is well-formed. -/
+theorem wGraph_wfg : WFG wGraph ∧ WFGo wGraph := by
+  have key : ∀ i op, getOp wGraph i = some op →
+      op = { inputs := [some 0, some 1], outputs := [some 2] } ∨
+      op = { inputs := [some 2], outputs := [some 4] } := by
+    intro i op hop
+    have hi : i < 6 := getOp_lt hop
+    have : i = 0 ∨ i = 1 ∨ i = 2 ∨ i = 3 ∨ i = 4 ∨ i = 5 := by omega
+    rcases this with rfl | rfl | rfl | rfl | rfl | rfl <;>
+      simp [getOp, getNode, wGraph] at hop <;> simp [← hop]
+  constructor
+  · intro i op hop d hd
+    rcases key i op hop with rfl | rfl <;> simp [opInputs] at hd
+    · rcases hd with rfl | rfl <;> decide
+    · subst hd; decide
+  · intro i op hop o ho
+    rcases key i op hop with rfl | rfl <;> simp [opOutputs] at ho <;> subst ho <;> decide
+
+example (c : Option CachedPlan) (hc : Reachable wMdl c) (inputs : List (Nat × InVal)) (outs : List Nat) :
+    (run .fixed wMdl true c inputs outs).1.isPanic = false :=
+  c26_run_isPanic_false wGraph_wfg.1 hc true inputs outs
+
 
 /-- Non-vacuity of T1: a warm cache (after the valid request `[a,b] → [y]`) and requests of each
 class. -/
